@@ -3,7 +3,7 @@
 # and the existing suite still passes with it. usage: confirm_seed.sh <PROP> [demo test name]
 P=$1
 W=/tmp/seed/$P
-O=/tmp/seed/${P}_out
+O=${OUT:-/tmp/seed/${P}_out}
 export CARGO_NET_OFFLINE=true CARGO_TARGET_DIR=/tmp/seed/${P}_target
 cd $W || exit 2
 LOG=$O/confirm.log
@@ -14,13 +14,13 @@ git checkout -q -- . 2>/dev/null
 git apply $O/patch.diff || { echo "patch does not apply" >> $LOG; exit 2; }
 cp $demo tests/$name.rs
 echo "== demo WITH change" >> $LOG
-timeout 1500 cargo test --offline --test $name -- --test-threads 1 >> $LOG 2>&1; echo "exit_with=$?" >> $LOG
+unshare -n sh -c "ip link set lo up && timeout 1500 cargo test --offline --test $name -- --test-threads 1" >> $LOG 2>&1; echo "exit_with=$?" >> $LOG
 echo "== full suite WITH change" >> $LOG
 rm tests/$name.rs
-timeout 3000 cargo test --workspace --no-fail-fast --offline 2>&1 | grep -E '^test result|FAILED|failed' >> $LOG; 
+unshare -n sh -c "ip link set lo up && timeout 3000 cargo test --workspace --no-fail-fast --offline" 2>&1 | grep -E '^test result|FAILED|failed' >> $LOG; 
 cp $demo tests/$name.rs
 git apply -R $O/patch.diff
 echo "== demo WITHOUT change" >> $LOG
-timeout 1500 cargo test --offline --test $name -- --test-threads 1 >> $LOG 2>&1; echo "exit_without=$?" >> $LOG
+unshare -n sh -c "ip link set lo up && timeout 1500 cargo test --offline --test $name -- --test-threads 1" >> $LOG 2>&1; echo "exit_without=$?" >> $LOG
 git apply $O/patch.diff
 grep -E 'exit_with|exit_without|^test result' $LOG
